@@ -47,12 +47,14 @@ def body(c):
     # ---- spec -> impl -> spec: the crate's answers on TLC's environments, judged by J
     rp = os.path.join(c.work, "replayed.ndjson")
     c.vh(["c15", "replay", cpath, rp], timeout=3400)
-    validate_trace(c, "Trace_ElementsEnv", "Trace_ElementsEnv.cfg", rp, describe, heap="12g", timeout=3400, env={"TERMS": "all" if q else "sample"})
+    validate_trace(c, "Trace_ElementsEnv", "Trace_ElementsEnv.cfg", rp, describe, heap="12g", timeout=3400,
+                   env={"TERMS": "all" if q else "sample", "CONCRETE": 1500 if q else 4000})        # (CONCRETE: every m-th environment's global digests are recomputed inside TLC with Sha256.tla)
     hash_jets(c, "enumerated")
     # ---- impl -> spec: random transactions
     rec = os.path.join(c.work, "recorded.ndjson")
     c.vh(["c15", "record", 2000 if q else 30000, rec], timeout=3400)
-    validate_trace(c, "Trace_ElementsEnv", "Trace_ElementsEnv.cfg", rec, describe, heap="12g", timeout=3400, env={"TERMS": "all" if q else "sample"})
+    validate_trace(c, "Trace_ElementsEnv", "Trace_ElementsEnv.cfg", rec, describe, heap="12g", timeout=3400,
+                   env={"TERMS": "all" if q else "sample", "CONCRETE": 250 if q else 400})
     hash_jets(c, "random")
     jets, shapes, answers = Counter(), Counter(), 0
     for path in (rp, rec):
